@@ -370,6 +370,11 @@ where
     fmt_subscriber::Subscriber<Registry, N, E, W>: subscribe::Subscribe<Registry>,
 {
     #[inline]
+    fn on_register_dispatch(&self, collector: &tracing_core::Dispatch) {
+        self.inner.on_register_dispatch(collector);
+    }
+
+    #[inline]
     fn register_callsite(&self, meta: &'static Metadata<'static>) -> Interest {
         self.inner.register_callsite(meta)
     }
